@@ -21,7 +21,7 @@ import numpy as np
 from harness.common import enc, Z, B, opt, to_zs, is_err, err_code, kids, tag
 
 PROP = 'C10'
-GENERATORS = ['gen_array']
+GENERATORS = ['gen_array', 'gen_arraypure']   # gen_arraypure: C20.Model (imported through C20's lemma files) uses Gen_arraypure
 TRUSTED = [
     'translator tools/py2gallina.py: Gen_array.iterate_chunks (used by the chunk loop of the model) is regenerated from glue/utils/array.py on every run',
     'hand model coq/C10/Model.v of Data.compute_statistic (chunk loop, SliceSubsetState shortcut, subarray_slices, view recombination, bail-out, padding) '
